@@ -155,6 +155,17 @@ CLAIMED.update({
                      "inputs and quoted text cells are known findings."),
 })
 
+CLAIMED.update({
+    "C09": dict(cat="exploration", ref="DESIGN.md 3 (C09)",
+                technique="deterministic simulation with fault injection into stored content: compositions of presentation "
+                          "perturbations (noise lines at seeded sites, re-padding, newline style, re-wrapping, re-delimiting) "
+                          "applied to the stored text of generated and example-corpus bases, both texts delivered through simulated "
+                          "channels; metamorphic equality of the canonical read results",
+                text="canon(read(transformed)) == canon(read(base)) for seeded compositions of the listed transformations, with "
+                     "sites and amounts over the whole file (incl. 21+ noise lines in a row and lines right after ~A), wrapping "
+                     "widths from one value per line to all on one line, SPACE/TAB/COMMA with and without padding."),
+})
+
 NOT_APPLICABLE = {
     "C04": "read_header_line is a pure function of one already-delivered line (regex cascade): no stream position, "
            "history, fault or interleaving can influence it, so deterministic simulation adds nothing (DESIGN.md 4)",
